@@ -40,6 +40,7 @@ type blockRec struct {
 	EthMsgs  []*evmtypes.MsgEthereumTx // admitted Ethereum transactions, in block order
 	EthGas   []uint64                  // gas used the consensus result reports for each of them (0 when it was not executed)
 	EthExec  []bool                    // whether it was executed (a receipt exists)
+	EthClean []bool                    // no transaction of the Cosmos lane ahead of it in the block (a trace replays Ethereum transactions only)
 	Writer   bool                      // one of them calls the writer contract (gas depends on the block's time)
 	Txs      [][]byte
 }
@@ -162,7 +163,11 @@ func (e *env) record(pb *vh.BlockResult, plans []*vh.TxPlan) {
 		return
 	}
 	rec := &blockRec{Height: pb.Height, Time: pb.Time, Hash: pb.Req.Hash, Proposer: pb.Req.ProposerAddress, Txs: plansTxs(plans)}
+	cosmosAhead := false
 	for i, pl := range plans {
+		if pl.Tx == nil {
+			cosmosAhead = true
+		}
 		if pl.Tx == nil || i >= len(pb.Res.TxResults) {
 			continue
 		}
@@ -174,6 +179,7 @@ func (e *env) record(pb *vh.BlockResult, plans []*vh.TxPlan) {
 			continue
 		}
 		rec.EthMsgs = append(rec.EthMsgs, &evmtypes.MsgEthereumTx{MarshalledTx: bin, From: pl.Sender.Bech32()})
+		rec.EthClean = append(rec.EthClean, !cosmosAhead)
 		if pl.Tx.To() != nil && *pl.Tx.To() == e.writer {
 			rec.Writer = true
 		}
